@@ -148,6 +148,22 @@ GEN = {
                 extra_cov=lambda r: {"calls_monitored": r.stats.get("calls_monitored", 0) + r.stats.get("iterator_steps_monitored", 0), "max_peak_bytes_in_one_call": r.stats.get("max_peak_bytes_per_call", 0), "max_peak_over_input_size": r.stats.get("max_peak_over_input_x1000", 0) / 1000.0,
                                      "max_device_reads_in_one_call": r.stats.get("max_device_reads_per_call", 0), "max_device_bytes_in_one_call": r.stats.get("max_device_read_bytes_per_call", 0), "items_yielded": r.stats.get("raw_items_yielded", 0), "slow_cases_over_2s": r.stats.get("slow_cases_over_2s", 0), "max_case_millis": r.stats.get("max_case_millis", 0)},
                 assumptions=["liveness is restated as bounded progress per call; wall clock is never a verdict (watchdog hits are inconclusive unless the case still does not return alone within 300 s)", "budget constants are generous on purpose: roxmltree needs ~50-100 bytes per XML token and a 64 KiB packet of 1-bit values expands 128x"]),
+    "C15": dict(workload="crash", extra=[], quick=(2500, 60), thorough=(120000, 900), both=False,
+                rule="small writer programs (1-4 sections) run once on a recording device; for EVERY prefix of the recorded device writes and cut positions {1,8,16,24,32,33,34,40,47,48,49,512,1019..1023, every byte <48 for writes at offset 0, 2 random} inside the next write, the crash image (issue order, zero-filled gaps) is opened: images holding no byte written by the top-level finalize call must be rejected, accepted images must list exactly the completed file's content and every read must be Err or equal; plus the writer dropped without finalize after every item (optionally abandoning the last section writer); non-trivial = crash image built and judged; distinct = distinct program shapes (each contributes all its prefixes x cuts)",
+                distinct=lambda r: len(r.nums.get("program_shape", ())), evaluations=lambda r: r.stats.get("images_built", 0),
+                extra_cov=lambda r: {"programs": r.stats.get("programs", 0), "images_rejected": r.stats.get("images_rejected", 0), "images_accepted_and_equal": r.stats.get("images_accepted_and_equal", 0), "write_kind_x_cut_class_cells": {k[4:]: v for k, v in r.cover.items() if k.startswith("cut:")}, "exhaustive": False, "exhaustive_part": "all prefixes of the device write sequence of every generated program"},
+                assumptions=["writes reach the device in issue order (no reordering is generated)", "the recorder is validated per program: replaying all recorded writes must reproduce the completed file"]),
+    "C16": dict(workload="fault", extra=[], quick=(1500, 60), thorough=(60000, 900), both=False,
+                rule="small writer programs and their read suites: (a) short-transfer schedules for reads and writes independently (1 byte, alternating, fixed k, random, random with ErrorKind::Interrupted; 4 per direction quick / 16 thorough) must give byte-identical files and identical read results; (b) ONE injected device error at EVERY device operation index (read/write/seek/flush; kinds Other, UnexpectedEof/WriteZero, write returning Ok(0)) of the writer program and of the reader suite: the public call in progress (identified by the M-DEV trace) must return Err, never panic or Ok; Ok from top-level finalize implies the device image equals the fault-free file; non-trivial = fault or schedule run; distinct = distinct program shapes",
+                distinct=lambda r: len(r.nums.get("program_shape", ())), evaluations=lambda r: r.stats.get("writer_fault_runs", 0) + r.stats.get("reader_fault_runs", 0) + r.stats.get("schedules_write", 0) + r.stats.get("schedules_read", 0),
+                extra_cov=lambda r: {"writer_fault_runs": r.stats.get("writer_fault_runs", 0), "reader_fault_runs": r.stats.get("reader_fault_runs", 0), "calls_observed_returning_err": r.stats.get("writer_calls_returned_err", 0) + r.stats.get("reader_calls_returned_err", 0), "faults_during_drop_exempt": r.stats.get("writer_fault_in_drop_exempt", 0),
+                                     "fault_cells": {k: v for k, v in r.cover.items() if k.startswith(("writer-fault:", "reader-fault:"))}, "exhaustive": False, "exhaustive_part": "every device operation index of every generated program and read suite"},
+                assumptions=["errors swallowed in Drop have no return value and are exempt", "a read returning Ok(0) while data exists violates the Read contract and is not injected; write returning Ok(0) is", "faults do not transfer partial data (torn transfers are C15's and C17's domain)"]),
+    "C17": dict(workload="history", extra=[], quick=(12000, 60), thorough=(600000, 900), both=False,
+                rule="files with 2-4 point clouds and 2-4 blobs (intact / one damaged data page / damaged section header / damaged blob header); random sequences of 5..40 operations {raw iterate k in {0,1,half,all+2} then drop, simple iterate k with 4 option vectors, blob, descriptors} on ONE reader over a device that in half the cases delivers short reads and in half the cases returns one transient error; every result is compared with the memoised result of the same operation on a fresh reader; non-trivial = sequence executed; distinct = distinct (sequence, damage class) identities",
+                distinct=lambda r: len(r.nums.get("sequence_identity", ())), evaluations=lambda r: r.stats.get("sequences", 0),
+                extra_cov=lambda r: {"operations": r.stats.get("operations", 0), "ops_failed": r.stats.get("ops_failed", 0), "ops_equal_after_earlier_failure": r.stats.get("ops_equal_after_earlier_failure", 0), "ops_hit_by_transient_device_error": r.stats.get("ops_with_transient_error", 0), "op_kind_pairs": {k[5:]: v for k, v in r.cover.items() if k.startswith("pair:")}},
+                assumptions=["'earlier operations failed' includes failure by a transient device error", "the operation that itself suffers the injected device error is not compared (C16 requires it to fail)"]),
     "C11": dict(workload="pages", extra=["--all"], quick=(0, 60), thorough=(0, 900), both=False,
                 quick_extra=["--depth", "4", "--random", "12000"], thorough_extra=["--depth", "5", "--random", "200000"],
                 rule="page layer driven through the e57_verif hook beside a logical-stream model: ALL histories of the given depth (quick 4, thorough 5) over a 29-symbol alphabet {write_all(n) for 12 sizes around page boundaries, raw write, physical_seek to 12 position classes incl. rejected ones, flush, align, physical_position, physical_size} followed by drop, then random histories of 20..120 ops with patch-back patterns; device compared with the model at every flush point; read-side sequences {seek_physical, read(n), read_exact(n), align} on intact images and images with one damaged page; non-trivial = history with >=1 flush point checked; distinct = distinct (abstract state, op kind, abstract state) transitions observed",
@@ -192,6 +208,7 @@ def c07(prop, tier, seed):
         same_cases = r1.cases == r2.cases and r1.stats.get("variants") == r2.stats.get("variants")
         for key, what in (("digest_files_sum48", "files"), ("digest_verdicts_sum48", "verdicts")):
             a, b = r1.stats.get(key), r2.stats.get(key)
+            a, b = (a % (1 << 48) if a is not None else None), (b % (1 << 48) if b is not None else None)
             notes[f"backend_{what}_digest_builtin"] = a
             notes[f"backend_{what}_digest_crc32c"] = b
             if same_cases and a != b:
@@ -230,6 +247,60 @@ def c07(prop, tier, seed):
 PLANS = {p: roundtrip for p in RT}
 PLANS.update({p: generic for p in GEN})
 PLANS["C07"] = c07
+
+
+def c19(prop, tier, seed):
+    t0 = time.time()
+    wd = workdir(prop, tier)
+    res = Result()
+    notes = {}
+    try:
+        cases, secs = (6000, 60) if tier == "quick" else (300000, 900)
+        b = build("checked")
+        extra = []
+        enc = encoder_files(wd, seed, 40 if tier == "quick" else 600)
+        if enc:
+            extra = ["--filelist", enc]
+        r1 = run_shards(b, "copy", extra, cases, secs, seed, tier, wd, "first", prop)
+        # determinism across processes started at different times (clock with second resolution, per-process
+        # hash seeds, addresses would show): a slice of the same cases again, >= 1.2 s later, other shard layout
+        time.sleep(max(0.0, 1.3 - r1.stats.get("wall_s_first", 0)))
+        small = min(cases, 1500)
+        ra = run_shards(b, "copy", extra, small, secs, seed, tier, wd, "det_a", prop, shards=3)
+        time.sleep(1.3)
+        rb = run_shards(b, "copy", extra, small, secs, seed, tier, wd, "det_b", prop, shards=5)
+        M = 1 << 48  # shard-wise sums are order independent only modulo 2^48
+        da, db = ra.stats.get("digest_files_sum48"), rb.stats.get("digest_files_sum48")
+        da, db = (da % M if da is not None else None), (db % M if db is not None else None)
+        notes["cross_process_digest_a"], notes["cross_process_digest_b"] = da, db
+        if ra.cases == rb.cases and da is not None and da != db:
+            res.viols.append({"prop": prop, "sig": f"{prop}/nondeterministic-bytes/across-processes", "detail": f"the same seeded programs/copies produced different file digests in two processes started at different times: {da} vs {db}", "workload": "copy", "seed": seed, "case": 0, "args": None})
+        elif ra.cases != rb.cases:
+            res.inconclusive.append({"why": "determinism runs covered different case counts", "cases": [ra.cases, rb.cases]})
+        res.merge(r1)
+        if tier == "thorough":
+            b2 = build("release")
+            res.merge(run_shards(b2, "copy", extra, cases // 2, secs // 2, seed + 7, tier, wd, "release", prop))
+    finally:
+        cleanup(wd)
+    rule = ("sources = the readable bundled test files (libE57Format-written and others), files from the independent Python encoder (G-LAYOUT) and generated writer programs; each is copied through the public API (descriptor fields, prototype, raw values, images, blobs), the copy's content log (offsets, XML text and library version excluded; bounds only for sources written by this writer; partial limits excluded) must equal the source's; the copy of the copy must equal the copy (bounds included); every program and every copy is produced twice in-process and a slice again in two later processes with different shard layouts: bytes/digests must be identical; "
+            "non-trivial = source that was copied and compared; distinct = distinct source files (FNV-64 of their bytes)")
+    extra_cov = dict(notes)
+    extra_cov.update({"files_copied": res.stats.get("files_copied", 0), "skipped_not_rule_conforming": res.stats.get("skipped_not_rule_conforming", 0), "generations_compared": res.stats.get("generations_compared", 0), "byte_identical_pairs": res.stats.get("determinism_pairs", 0), "second_generation_byte_identical": res.stats.get("second_generation_byte_identical", 0)})
+    assumptions = ["sources whose prototypes the writer's documented rules reject (e.g. cartesianInvalidState declared 0..1 by libE57Format) are skipped and counted", "limits are compared only when complete in the source (the writer documents that it omits partial ones)"]
+    return finish(prop, tier, seed, level(prop), res, rule, len(res.nums.get("source_identity", ())), res.stats.get("sources", 0), assumptions, t0, extra_cov)
+
+
+def encoder_files(wd, seed, n):
+    """Files from the independent encoder (if it is available yet); returns path of a list file or None."""
+    try:
+        from e57ref import produce
+    except Exception:
+        return None
+    return produce.filelist(os.path.join(wd, "enc"), seed, n)
+
+
+PLANS["C19"] = c19
 
 
 def run(prop, tier, seed):
